@@ -36,6 +36,10 @@ Pfst.C06.nextDelims_single_line
 Pfst.C06.prevDelims_single_line
 Pfst.C06.pars_layout
 Pfst.C06.pars_layout_unbalanced
+Pfst.C06.bloc_covers_comment
+Pfst.C06.bloc_eq_loc_of_no_comment
+Pfst.C06.bloc_after_comment_edit
+Pfst.C06.bloc_after_comment_delete
 Pfst.C06.findContains_bruteforce
 Pfst.C06.findContains_bruteforce_wf
 Pfst.C06.findContains_decorators_inert
@@ -65,8 +69,10 @@ TRUSTED = [
     'location) / find_in_loc / find_loc as one pass over the walk(\'loc\') preorder list, the decorator roots given as input',
     'the recursive find_contains_loc call on a decorator is modelled by the pass without decorator search (a decorator '
     'expression cannot contain a decorated definition); compared with the real function on every corpus list',
+    'bloc end column of block statements (loc + trailing line comment) is modelled (blocEndCol) and compared on fresh trees '
+    'and after every step of a line-comment edit chain with all caches filled beforehand',
     'not modelled (checked only by the CPython-judged sweep): _loc_op, _loc_arguments, _loc_comprehension, _loc_withitem, '
-    '_loc_match_case, _loc_decorator, _loc_block_header_end, bloc, _next_bound/_prev_bound, walk order, next_find_re',
+    '_loc_match_case, _loc_decorator, _loc_block_header_end, the decorator start of bloc, _next_bound/_prev_bound, walk order, next_find_re',
     'bistr.b2c is modelled by its closed form (byte inside character i -> i) instead of the scatter + forward-fill loops; '
     'every byte offset of every generated string is compared each run',
     'oracle exclusions (cannot be decided soundly from tokens): parentheses of `with (a): ...` (single item, no `as`); '
@@ -181,7 +187,7 @@ def arglist_shape(rng):
 
     def val():
         n = next(names)
-        return rng.choice([n, n, n, f'({n})', f'{n}.x', f'{n}[0]', f'{n} or 1'])
+        return rng.choice([n, n, n, f'({n})', f'{n}.x', f'{n}[0]', f'{n} or 1', f'{n}[1:2]', f'{{1: {n}}}', f'(lambda: {n})'])
 
     items = []
     for _ in range(rng.choice([0, 0, 1, 2])):
@@ -364,46 +370,15 @@ def _kind(a):
     return a.__class__.__name__
 
 
-def _sweep_prog(arg):
-    """never raises: an exception escaping from pfst while locations are queried is a failure of the property"""
-    try:
-        return _sweep_prog_inner(arg)
-    except Exception as e:
-        import traceback
-        tb = traceback.extract_tb(e.__traceback__)
-        where = next((f'{fr.name}:{fr.lineno}' for fr in reversed(tb) if '/fst/' in fr.filename), 'harness')
-        return {'fails': [(f'C06|query|{type(e).__name__}|raised', f'{type(e).__name__}: {e} (in {where})',
-                           {'src': arg[0], 'traceback': traceback.format_exc()[-1200:]})],
-                'tally': {}, 'checks': 1, 'nontrivial': 0}
-
-
-def _sweep_prog_inner(arg):
-    src, seed, nq = arg
-    rng = random.Random(seed)
-    res = {'fails': [], 'tally': {}, 'checks': 0, 'nontrivial': 0}
-    fails = res['fails']
-
-    def tally(k, n=1):
-        res['tally'][k] = res['tally'].get(k, 0) + n
-
-    def fail(sig, what, **w):
-        w['src'] = src
-        fails.append((sig, what, w))
-
-    try:
-        orc = Oracle(src)
-    except Exception:
-        return res
-    try:
-        root = _mk(src)
-    except Exception as e:
-        fail('C06|parse|Module|raised', f'FST(src) raised {type(e).__name__}: {e}')
-        return res
+def _judge_nodes(root, orc, res, fail, tally):
+    """every node of a (fresh or edited) pfst tree against the CPython oracle of its CURRENT source: loc, char/byte
+    coordinates, bloc, decorators, header colon, pars().  Returns {id(pfst ast node): CPython node} or None when the
+    live tree does not have the shape of a fresh parse."""
     lines = orc.lines
     pairs = list(zip(ast.walk(root.a), ast.walk(orc.tree)))
     if any(a.__class__ is not o.__class__ for a, o in pairs):
         tally('excluded:tree-shape-differs')
-        return res
+        return None
     o_of = {id(a): o for a, o in pairs}
 
     def text_chars(loc):
@@ -563,6 +538,78 @@ def _sweep_prog_inner(arg):
                     if g[0]:
                         res['nontrivial'] += 1
                         tally('pars-count:' + str(min(g[0], 3)))
+    return o_of
+
+
+def _judge_geometry(root, orc, o_of, res, fail, tally):
+    """children inside parents, siblings ordered; returns the walk list"""
+    nodes = _walk_list(root)
+    kids = {}
+    for i, (f, d, pi) in enumerate(nodes):
+        if pi is not None:
+            kids.setdefault(pi, []).append(i)
+    for pi, ks in kids.items():
+        p = nodes[pi][0]
+        po = o_of[id(p.a)]
+        if isinstance(po, ast.JoinedStr) or id(po) in orc.in_fstr:
+            tally('excluded:fstring-children')
+            continue
+        pstart = tuple(p.bloc[:2]) if getattr(p.a, 'decorator_list', None) else tuple(p.loc[:2])
+        pend = tuple(p.loc[2:])
+        prev_end = None
+        prev_k = None
+        for i in ks:
+            c = nodes[i][0]
+            cs, ce = tuple(c.bloc[:2]), tuple(c.loc[2:])
+            res['checks'] += 1
+            if cs < pstart or ce > pend:
+                fail(f'C06|containment|{_kind(p.a)}.{_kind(c.a)}|child-outside-parent',
+                     f'{_kind(c.a)} {c.loc} not inside parent {_kind(p.a)} {p.loc}', node=_kind(c.a), loc=list(c.loc))
+            if prev_end is not None and cs < prev_end:
+                fail(f'C06|sibling-order|{_kind(p.a)}|{prev_k}/{_kind(c.a)}-overlap',
+                     f'{_kind(c.a)} {c.loc} starts before the end {prev_end} of its previous sibling {prev_k}', node=_kind(c.a), loc=list(c.loc))
+            prev_end, prev_k = ce, _kind(c.a)
+    return nodes
+
+
+def _sweep_prog(arg):
+    """never raises: an exception escaping from pfst while locations are queried is a failure of the property"""
+    try:
+        return _sweep_prog_inner(arg)
+    except Exception as e:
+        import traceback
+        tb = traceback.extract_tb(e.__traceback__)
+        where = next((f'{fr.name}:{fr.lineno}' for fr in reversed(tb) if '/fst/' in fr.filename), 'harness')
+        return {'fails': [(f'C06|query|{type(e).__name__}|raised', f'{type(e).__name__}: {e} (in {where})',
+                           {'src': arg[0], 'traceback': traceback.format_exc()[-1200:]})],
+                'tally': {}, 'checks': 1, 'nontrivial': 0}
+
+
+def _sweep_prog_inner(arg):
+    src, seed, nq = arg
+    rng = random.Random(seed)
+    res = {'fails': [], 'tally': {}, 'checks': 0, 'nontrivial': 0}
+    fails = res['fails']
+
+    def tally(k, n=1):
+        res['tally'][k] = res['tally'].get(k, 0) + n
+
+    def fail(sig, what, **w):
+        w['src'] = src
+        fails.append((sig, what, w))
+
+    try:
+        orc = Oracle(src)
+    except Exception:
+        return res
+    try:
+        root = _mk(src)
+    except Exception as e:
+        fail('C06|parse|Module|raised', f'FST(src) raised {type(e).__name__}: {e}')
+        return res
+    o_of = _judge_nodes(root, orc, res, fail, tally)
+    if o_of is None:
+        return res
     # --- pars() must not depend on the order in which the three `shared` modes are asked -----------------------------
     def par_nodes(r):
         out = []
@@ -618,33 +665,7 @@ def _sweep_prog_inner(arg):
             if first[0] == 'raised' or first[4] != exp[0] or ((first[0], first[1]), (first[2], first[3])) != exp[1]:
                 fail(f'C06|pars(shared=None)|{k}|{"count" if first[0] == "raised" or first[4] != exp[0] else "span"}',
                      f'{k} at {orc.span(o)}: pars(shared=None) = {first} but {exp[0]} parenthesis pair(s) enclose it directly, spanning {exp[1]}', node=k)
-    # --- children inside parents, siblings ordered -------------------------------------------------------------------
-    nodes = _walk_list(root)
-    kids = {}
-    for i, (f, d, pi) in enumerate(nodes):
-        if pi is not None:
-            kids.setdefault(pi, []).append(i)
-    for pi, ks in kids.items():
-        p = nodes[pi][0]
-        po = o_of[id(p.a)]
-        if isinstance(po, ast.JoinedStr) or id(po) in orc.in_fstr:
-            tally('excluded:fstring-children')
-            continue
-        pstart = tuple(p.bloc[:2]) if getattr(p.a, 'decorator_list', None) else tuple(p.loc[:2])
-        pend = tuple(p.loc[2:])
-        prev_end = None
-        prev_k = None
-        for i in ks:
-            c = nodes[i][0]
-            cs, ce = tuple(c.bloc[:2]), tuple(c.loc[2:])
-            res['checks'] += 1
-            if cs < pstart or ce > pend:
-                fail(f'C06|containment|{_kind(p.a)}.{_kind(c.a)}|child-outside-parent',
-                     f'{_kind(c.a)} {c.loc} not inside parent {_kind(p.a)} {p.loc}', node=_kind(c.a), loc=list(c.loc))
-            if prev_end is not None and cs < prev_end:
-                fail(f'C06|sibling-order|{_kind(p.a)}|{prev_k}/{_kind(c.a)}-overlap',
-                     f'{_kind(c.a)} {c.loc} starts before the end {prev_end} of its previous sibling {prev_k}', node=_kind(c.a), loc=list(c.loc))
-            prev_end, prev_k = ce, _kind(c.a)
+    nodes = _judge_geometry(root, orc, o_of, res, fail, tally)
     # --- find_*loc vs brute force ------------------------------------------------------------------------------------
     in_deco = set()
     for i, (f, d, pi) in enumerate(nodes):
@@ -746,6 +767,228 @@ def _sweep_prog_inner(arg):
 
 
 # ---------------------------------------------------------------------------------------------------------------------
+# locations after accessor edits, with the caches populated beforehand
+
+PERMS = list(itertools.permutations((True, False, None)))
+STMTLIKE = (ast.stmt, ast.ExceptHandler, ast.match_case)
+LC_CHAIN = [('new', ('first é',), {}), ('replace-longer', ('a much longer comment → été',), {}), ('replace-shorter', ('y',), {}),
+            ('replace-full', ('    # 中文 full',), {'full': True}), ('delete', (None,), {})]
+
+
+def _populate(root, k):
+    """a client looking at every location first: fills the loc / bloc / pars caches of every node (query order k)"""
+    order = PERMS[k % 6]
+    for f in root.walk(True):
+        try:
+            if f.loc is None:
+                continue
+            f.bloc
+            if isinstance(f.a, (ast.expr, ast.pattern)):
+                for sh in order:
+                    f.pars(shared=sh)
+        except Exception:
+            pass
+
+
+def _edit_targets(root):
+    """(statement-like targets, expression targets) as indices into list(root.walk(True)); the LAST statements of
+    (nested) blocks first"""
+    fl = list(root.walk(True))
+    stm, last, exprs = [], [], []
+    for i, f in enumerate(fl):
+        a = f.a
+        if isinstance(a, STMTLIKE):
+            par = f.parent
+            is_last = par is not None and f.pfield.idx is not None and f.pfield.idx == len(getattr(par.a, f.pfield.name)) - 1
+            (last if is_last else stm).append(i)
+        elif isinstance(a, ast.expr) and not isinstance(a, (ast.Slice, ast.FormattedValue, ast.JoinedStr, ast.Starred)):
+            exprs.append(i)
+    return last + stm, exprs
+
+
+def _edit_prog(arg):
+    try:
+        return _edit_prog_inner(arg)
+    except Exception as e:
+        import traceback
+        return {'fails': [(f'C06|edit-harness|{type(e).__name__}|raised', f'{type(e).__name__}: {e}',
+                           {'src': arg[0], 'traceback': traceback.format_exc()[-1500:]})], 'tally': {}, 'checks': 1, 'nontrivial': 0}
+
+
+def _edit_prog_inner(arg):
+    """Deterministic product: for each target a chain of accessor edits on a fresh tree; before every edit all
+    loc/bloc/pars are read (caches filled), after it EVERY node is judged against tokenize/ast.parse of the new source."""
+    src, max_stmt, max_expr = arg
+    res = {'fails': [], 'tally': {}, 'checks': 0, 'nontrivial': 0}
+
+    def tally(k, n=1):
+        res['tally'][k] = res['tally'].get(k, 0) + n
+
+    try:
+        ast.parse(src)
+        root0 = _mk(src)
+    except Exception:
+        return res
+    stmts, exprs = _edit_targets(root0)
+    stmts = stmts[:max_stmt]
+    if len(exprs) > max_expr:
+        step = len(exprs) / max_expr
+        exprs = [exprs[int(j * step)] for j in range(max_expr)]
+    chains = []
+    fl0 = list(root0.walk(True))
+    for i in stmts:
+        a = fl0[i].a
+        chains.append((i, [('put_line_comment', nm, ar, kw) for nm, ar, kw in LC_CHAIN]))
+        for field in ('orelse', 'finalbody'):
+            if getattr(a, field, None) and isinstance(a, ast.stmt):
+                chains.append((i, [('put_line_comment', f'{field}:{nm}', ar + (field,), kw) for nm, ar, kw in LC_CHAIN[:3] + LC_CHAIN[4:]]))
+        if isinstance(a, (ast.FunctionDef, ast.AsyncFunctionDef, ast.ClassDef)):
+            chains.append((i, [('put_docstr', 'new', ('doc é\nsecond line',), {}), ('put_docstr', 'replace', ('x',), {}),
+                               ('put_docstr', 'delete', (None,), {})]))
+    for i in exprs:
+        chains.append((i, [('par', 'force', (True,), {}), ('unpar', '', (), {})]))
+    # whitespace-only put_src(action='offset') at a few token gaps
+    try:
+        from props import C11 as _c11
+        gaps = [g for g in _c11.gaps(src) if g[0] == g[2]][:: max(1, len(_c11.gaps(src)) // 4 or 1)][:4]
+    except Exception:
+        gaps = []
+    for g in gaps:
+        chains.append((None, [('put_src', 'offset', g, {})]))
+
+    for ci, (ti, chain) in enumerate(chains):
+        root = _mk(src)
+        fl = list(root.walk(True))
+        target = fl[ti] if ti is not None else None
+        hist = []
+        for si, (meth, name, args, kw) in enumerate(chain):
+            _populate(root, ci + si)
+            label = f'{meth}({name})'
+            try:
+                if meth == 'put_src':
+                    ln, col, eln, ecol = args[:4]
+                    node = _c11._innermost(root, ln, col, eln, ecol)
+                    node.put_src(' ' if (ln, col) == (eln, ecol) else '   ', ln, col, eln, ecol, 'offset')
+                else:
+                    getattr(target, meth)(*args, **kw)
+            except Exception as e:
+                tally(f'edit-refused:{meth}:{type(e).__name__}')
+                break
+            hist.append([meth, [x if isinstance(x, (int, str, type(None))) else str(x) for x in args], {k: str(v) for k, v in kw.items()}])
+            new_src = root.src
+            kind = _kind(target.a) if target is not None else 'gap'
+            res['checks'] += 1
+
+            def fail(sig, what, _label=label, _hist=list(hist), _new=new_src, _kind_=kind, _ti=ti, **w):
+                parts = sig.split('|')
+                parts[1] = f'{parts[1]} after {_label}'
+                w.update(src=src, new_src=_new, edits=_hist, target_index=_ti, target_kind=_kind_)
+                res['fails'].append(('|'.join(parts), f'after {_label} on {_kind_} (all locations read before): {what}', w))
+
+            try:
+                orc = Oracle(new_src)
+            except SyntaxError as e:
+                if meth in ('put_line_comment', 'put_docstr'):
+                    fail(f'C06|source|{kind}|no-longer-parses', f'the source no longer parses ({e.msg}): nodes keep locations of text that is gone; new source {new_src!r}')
+                else:
+                    tally(f'excluded:unparsable-after-{meth}')
+                break
+            except Exception:
+                break
+            o_of = _judge_nodes(root, orc, res, fail, tally)
+            if o_of is None:
+                if meth in ('put_line_comment',):
+                    fail(f'C06|tree|{kind}|shape-differs-from-parse', 'a comment edit changed the tree')
+                break
+            _judge_geometry(root, orc, o_of, res, fail, tally)
+            res['nontrivial'] += 1
+            if res['fails']:
+                break           # later steps of the chain would only repeat it
+        tally('edit-chains')
+    return res
+
+
+def edit_sources(rng, n):
+    """small programs for the edit product: the layout snippets, nested blocks with trailing comments, corpus programs"""
+    out = ['def func(a):\n    for i in a:\n        if i:\n            call(i)  # old\n    return a\n\nclass cls:\n    def meth(self):\n'
+           '        try:\n            pass\n        except Exception:\n            raise  # x\n',
+           'if a:\n    b = 1  # c\nelif c:\n    d = 2; e = 3\nelse:\n    while x:\n        y  # é\n    else:\n        z\n',
+           'try:\n    a\nexcept E:\n    b  # c\nelse:\n    c\nfinally:\n    d  # 日本\nwith a as b:\n    for i in j: pass\n',
+           '@deco  # dc\nclass C(a=1, *b[1:2]):\n    """doc"""\n    def f(self): return 1  # r\n    async def g(self):\n        async with a: await b  # w\n',
+           'if a: pass\nelif b: pass\nelse: pass\nfor i in j: pass\nelse: pass\nwhile a: pass\nelse: pass\ntry: pass\nfinally: pass\n',
+           'match a:\n    case 1: pass  # c\n    case [x, *y] if x:\n        z = (x)  # d\n',
+           'x = (a)  # c\ny = [\n    1,  # one\n    2,\n]  # end\nz = f(k=1, *a, *b)  ;  w = 2\n']
+    out += SNIPPETS[:: 3]
+    try:
+        out += corpus.hard_snippets()[:: 2]
+    except Exception:
+        pass
+    base = corpus.programs(rng, n, stdlib=0)
+    out += [corpus.add_comments(p, rng, 0.5) for p in base]
+    ok = []
+    for p in out:
+        try:
+            ast.parse(p)
+            ok.append(p)
+        except Exception:
+            pass
+    return ok
+
+
+def _bloc_cases(root):
+    from fst.asttypes import ASTS_LEAF_BLOCK
+    out = []
+    lines = root._lines
+    for f in root.walk(True):
+        if f.a.__class__ in ASTS_LEAF_BLOCK and f.loc is not None:
+            loc = f.loc
+            out.append(([c06_scan.enc(lines[loc[2]]), loc[3]], f.bloc[3]))
+    return out
+
+
+def _corr_bloc(arg):
+    """bloc end column of every block statement, on the fresh tree and after each step of the line-comment chain on the
+    last statements of (nested) blocks, caches filled before every step: (Lean case, implementation answer)"""
+    src, max_stmt = arg
+    out = []
+    try:
+        root0 = _mk(src)
+        out += _bloc_cases(root0)
+        stmts, _ = _edit_targets(root0)
+        for ci, ti in enumerate(stmts[:max_stmt]):
+            root = _mk(src)
+            target = list(root.walk(True))[ti]
+            for si, (nm, ar, kw) in enumerate(LC_CHAIN):
+                _populate(root, ci + si)
+                try:
+                    target.put_line_comment(*ar, **kw)
+                    ast.parse(root.src)
+                except Exception:
+                    break
+                out += _bloc_cases(root)
+    except Exception as e:
+        return {'exc': f'{type(e).__name__}: {e}', 'src': src, 'cases': out}
+    return {'cases': out}
+
+
+def _run_edits(ctx, n, max_stmt, max_expr):
+    rng = random.Random(ctx.rng.random())
+    srcs = edit_sources(rng, n)
+    res = pmap(_edit_prog, [(p, max_stmt, max_expr) for p in srcs])
+    seen = set()
+    for p, r in zip(srcs, res):
+        ctx.count('edit:' + p, r['nontrivial'] > 0, max(1, r['checks']))
+        for k, v in r['tally'].items():
+            d = ctx.dist.setdefault('edit_sweep', {})
+            d[k] = d.get(k, 0) + v
+        for sig, what, w in r['fails']:
+            if (sig, w.get('src')) in seen:
+                continue
+            seen.add((sig, w.get('src')))
+            ctx.fail(sig, what, w)
+    ctx.notes['edit_programs'] = ctx.notes.get('edit_programs', 0) + len(srcs)
+    ctx.notes['edit_judgements'] = ctx.notes.get('edit_judgements', 0) + sum(r['checks'] for r in res)
+
 
 def _bistr_cases(rng, n):
     from fst.astutil import bistr
@@ -874,6 +1117,28 @@ def correspondence(ctx):
         ctx.sample({'corr': 'scanners', 'lines': [''.join(map(chr, l)) for l in last[0]['lines']], 'f': last[0]['f'],
                     'q': last[0]['qs'][:2], 'impl': last[1][:2]})
     ctx.notes['scanner_blocks'] = len(blocks)
+    # (2b) bloc end column (loc + trailing comment extent) on fresh and comment-edited trees
+    srcs = edit_sources(random.Random(ctx.rng.random()), 20 if q else 300)
+    res = pmap(_corr_bloc, [(p, 4 if q else 10) for p in srcs])
+    bc = [c for r in res for c, _ in r['cases']]
+    bi = [i for r in res for _, i in r['cases']]
+    excs = [r for r in res if r.get('exc')]
+    if excs:
+        ctx.brk('correspondence', 'bloc on edited trees', f'{len(excs)} programs raised: {excs[0]["exc"]} on {excs[0]["src"][:200]!r}')
+    try:
+        mo = ctx.lean([{'f': 'C06.bloc_end', 'cases': bc[k:k + 4000]} for k in range(0, len(bc), 4000)])
+        mb = [x for o in mo for x in o.get('out', [])]
+        bad = [(c, i, m) for c, i, m in zip(bc, bi, mb) if i != m]
+        for c, i in zip(bc, bi):
+            ctx.corr_cases += 1
+            ctx.count(str(c), i != c[1])
+        ctx.dist.setdefault('correspondence_cases', {})['FST.bloc end vs Pfst.Scan.blocEndCol (fresh + after comment edits)'] = len(bc)
+        if bad or len(mb) != len(bc):
+            c, i, m = bad[0] if bad else (None, None, None)
+            ctx.brk('correspondence', 'FST.bloc vs Pfst.Scan.blocEndCol', f'{len(bad)}/{len(bc)} differ; first: line '
+                    f'{"".join(map(chr, c[0])) if c else None!r} loc end col {c[1] if c else None}: bloc end impl {i} model {m}')
+    except Exception as e:
+        ctx.brk('correspondence', 'bloc', f'driver error: {e}')
     # (3) pars() and find_*loc on corpus programs
     rng = random.Random(ctx.rng.random())
     progs = programs(rng, 120 if q else 1200, 6 if q else 100)
@@ -958,12 +1223,15 @@ def _run_sweep(ctx, nprog, nstd, nq):
 def sweep(ctx):
     if ctx.quick:
         _run_sweep(ctx, 260, 12, 30)
+        _run_edits(ctx, 30, 8, 6)
     else:
         _run_sweep(ctx, 3000, 250, 60)
+        _run_edits(ctx, 500, 14, 12)
 
 
 def search(ctx):
     _run_sweep(ctx, 4000, 300, 80)
+    _run_edits(ctx, 600, 14, 12)
 
 
 def replay(ctx, data):
@@ -972,6 +1240,13 @@ def replay(ctx, data):
         print('replay file names a broken obligation, not an input:', [b for b in data.get('broken', [])][:3])
         return
     sig = data.get('signature')
+    if 'edits' in w:        # a failure of the after-edit product: re-run the whole product on that program
+        r = _edit_prog((w['src'], 1000, 1000))
+        for s, what, ww in r['fails']:
+            if sig is None or s == sig:
+                ctx.fail(s, what, ww)
+                return
+        return
     for seed in range(20):
         r = _sweep_prog((w['src'], seed, 200))
         for s, what, ww in r['fails']:
